@@ -550,7 +550,6 @@ func insideLoopWith(body ast.Node, a, b ast.Node) bool {
 	return found
 }
 
-
 // repairedBefore recognises the check-or-replace idiom for a local code v:
 //
 //	if v == "" || v.Def() == nil { …; v = <new value>; … }      (no else)
